@@ -321,6 +321,14 @@ def finish(prop, tier, seed, plan, units, results, t0):
     # -- evidence
     n_kf_obligations = len([o for o in failed if (lambda k: k is not None and k.get("status") == "open")(match_known(known, o))])
     trusted = sorted(set(plan.trusted_base))
+    # modularity bookkeeping: a contract applied at a call site whose function body this check does not verify is an
+    # assumption of this check (it is proved by the checks that list the function under functions_under_contract)
+    proved_here = {f.split("[")[0] for f in functions if isinstance(f, str)}
+    used_only = sorted({b.split("[")[0] for a, b, c in callees if c == "contract" and isinstance(b, str)
+                        and b.split("[")[0] not in proved_here and b.startswith("pyubx2.")})
+    if used_only:
+        trusted.append("contracts used modularly at call sites but not proved by this check (proved in the checks that "
+                       "list them under functions_under_contract): " + ", ".join(used_only))
     samples = []
     for o in (discharged[:3] + discharged[len(discharged) // 2: len(discharged) // 2 + 2] + failed[:2]):
         samples.append(o.to_json())
